@@ -7,7 +7,8 @@
 //!   ka, frame_len, ctl_mode, sd_gated, rr_timeout, rr_max, rr_rate
 //!     ka         keep-alive seconds handed to the dispatcher (0 = disabled)
 //!     frame_len  a frame is `frame_len` bytes (0 is read as 1); the first byte is the request id;
-//!                a frame starting with byte 255 is a decoder error
+//!                a frame starting with byte 255 is a decoder error; frame_len 200 = header [id, n]
+//!                (consumed as soon as complete, like the MQTT codecs) followed by n payload bytes
 //!     ctl_mode   0 = the control service's Stop call is gated (op 5), 1 = answers Ok(None) at once
 //!     sd_gated   1 = the request service's shutdown() is gated (op 11)
 //!     rr_*       IoConfig::set_frame_read_rate(timeout, max_timeout, rate) if rr_timeout != 0
@@ -21,14 +22,17 @@
 //!   5,res        the pending Stop control call completes: 0 = Ok(None), 1 = Err, 2 = Ok(Some([238]))
 //!   6            local graceful close through a cloned IoRef
 //!   7            local terminate through a cloned IoRef
-//!   8,mode       request service readiness: 0 = ready, 1 = Err(Service), 2 = Err(Protocol), 3 = not ready
+//!   8,mode[,1]   request service readiness: 0 = ready, 1 = Err(Service), 2 = Err(Protocol), 3 = not ready;
+//!                with the third number the dispatcher is not woken (it notices at its next poll)
 //!   9            timer expiry (IoRef::notify_timeout)
 //!   10,mode      control service readiness: 0 = ready, 1 = Err
 //!   11           the request service's shutdown completes
 //! observation: one field per operation
 //!   finished (0 running, 1 Ok, 2 Err), handlers still pending, timer (remaining seconds rounded to
-//!   tens, 0 = not armed), n = number of control messages so far, n kinds (1 Stop(Protocol),
-//!   2 Stop(Error), 3 Stop(PeerGone), 4 Wr(true), 5 Wr(false)), then all bytes the peer has received
+//!   tens, 0 = not armed), n = number of control messages so far, n codes (1d Stop(Protocol) with
+//!   d = 1 decode, 2 encode, 3 violation, 4 keep-alive timeout, 5 read timeout; 20 Stop(Error);
+//!   30/31 Stop(PeerGone) without/with io error; 40 Wr(true); 50 Wr(false)), then all bytes the peer
+//!   has received
 use std::cell::{Cell, RefCell};
 use std::rc::Rc;
 use std::task::{Poll, Waker};
@@ -46,7 +50,13 @@ use crate::rt::{Gates, settle};
 use crate::{Fields, nums_of};
 
 #[derive(Clone, Debug)]
-pub struct FrameCodec(pub usize);
+pub struct FrameCodec(pub usize, pub Rc<Cell<Option<(u8, usize)>>>);
+
+impl FrameCodec {
+    pub fn new(len: usize) -> Self {
+        FrameCodec(len, Rc::new(Cell::new(None)))
+    }
+}
 
 impl Encoder for FrameCodec {
     type Item = Bytes;
@@ -64,6 +74,33 @@ impl Decoder for FrameCodec {
     type Item = Bytes;
     type Error = DecodeError;
     fn decode(&self, src: &mut BytesMut) -> Result<Option<Bytes>, DecodeError> {
+        if self.0 == 200 {
+            // like the MQTT codecs: the fixed header [id, n] is consumed as soon as it is complete,
+            // then the decoder waits for n payload bytes
+            loop {
+                match self.1.get() {
+                    None => {
+                        if src.is_empty() {
+                            return Ok(None);
+                        } else if src[0] == 255 {
+                            return Err(DecodeError::MalformedPacket);
+                        } else if src.len() < 2 {
+                            return Ok(None);
+                        }
+                        let hdr = src.split_to(2);
+                        self.1.set(Some((hdr[0], hdr[1] as usize)));
+                    }
+                    Some((id, n)) => {
+                        if src.len() < n {
+                            return Ok(None);
+                        }
+                        let _ = src.split_to(n);
+                        self.1.set(None);
+                        return Ok(Some(Bytes::from(vec![id])));
+                    }
+                }
+            }
+        }
         if src.is_empty() {
             Ok(None)
         } else if src[0] == 255 {
@@ -81,8 +118,8 @@ pub struct Env {
     pub pending: Cell<i64>,
     pub ready_mode: Cell<u64>,
     pub ready_waker: RefCell<Option<Waker>>,
+    pub disp_waker: RefCell<Option<Waker>>,
     pub ctl_log: RefCell<Vec<u64>>,
-    pub ctl_detail: RefCell<Vec<u64>>,
     pub ctl_gate: Gates<u64>,
     pub ctl_mode: u64,
     pub ctl_ready_mode: Cell<u64>,
@@ -97,8 +134,8 @@ impl Env {
             pending: Cell::new(0),
             ready_mode: Cell::new(0),
             ready_waker: RefCell::new(None),
+            disp_waker: RefCell::new(None),
             ctl_log: RefCell::new(Vec::new()),
-            ctl_detail: RefCell::new(Vec::new()),
             ctl_gate: Gates::new(),
             ctl_mode,
             ctl_ready_mode: Cell::new(0),
@@ -170,7 +207,14 @@ impl Service<Control<()>> for CtlSrv {
     type Error = ();
 
     async fn ready(&self, _: ServiceCtx<'_, Self>) -> Result<(), ()> {
-        if self.0.ctl_ready_mode.get() == 1 { Err(()) } else { Ok(()) }
+        // polled at the top of every Dispatcher::poll: remember the dispatcher task's waker so that
+        // the harness can make the dispatcher poll again in any state
+        let env = self.0.clone();
+        std::future::poll_fn(move |cx| {
+            *env.disp_waker.borrow_mut() = Some(cx.waker().clone());
+            Poll::Ready(if env.ctl_ready_mode.get() == 1 { Err(()) } else { Ok(()) })
+        })
+        .await
     }
 
     async fn call(&self, msg: Control<()>, _: ServiceCtx<'_, Self>) -> Result<Option<Bytes>, ()> {
@@ -189,8 +233,7 @@ impl Service<Control<()>> for CtlSrv {
             Control::Stop(Reason::PeerGone(e)) => (3, u64::from(e.err().is_some())),
             Control::WrBackpressure(w) => (if w.enabled() { 4 } else { 5 }, 0),
         };
-        self.0.ctl_log.borrow_mut().push(kind);
-        self.0.ctl_detail.borrow_mut().push(detail);
+        self.0.ctl_log.borrow_mut().push(kind * 10 + detail);
         if kind <= 3 && self.0.ctl_mode == 0 {
             match self.0.ctl_gate.wait(0).await {
                 0 => Ok(None),
@@ -228,7 +271,7 @@ pub async fn run_case(c: &Fields) -> Fields {
 
     let disp = verif_hooks::dispatcher(
         io,
-        FrameCodec(frame_len),
+        FrameCodec::new(frame_len),
         ReqSrv(env.clone()),
         CtlSrv(env.clone()),
         Seconds(ka as u16),
@@ -273,14 +316,26 @@ pub async fn run_case(c: &Fields) -> Fields {
             Some(7) => ioref.terminate(),
             Some(8) => {
                 env.ready_mode.set(op.get(1).copied().unwrap_or(0));
-                if let Some(w) = env.ready_waker.borrow_mut().take() {
+                if op.len() < 3 {
+                    if let Some(w) = env.ready_waker.borrow_mut().take() {
+                        w.wake();
+                    }
+                    if let Some(w) = env.disp_waker.borrow().clone() {
+                        w.wake();
+                    }
+                }
+            }
+            Some(9) => {
+                ioref.notify_timeout();
+                if let Some(w) = env.disp_waker.borrow().clone() {
                     w.wake();
                 }
             }
-            Some(9) => ioref.notify_timeout(),
             Some(10) => {
                 env.ctl_ready_mode.set(op.get(1).copied().unwrap_or(0));
-                ioref.notify_dispatcher();
+                if let Some(w) = env.disp_waker.borrow().clone() {
+                    w.wake();
+                }
             }
             Some(11) => env.sd_gate.open(0, 0),
             _ => {}
